@@ -12,6 +12,10 @@ def hooks_commits():
 
 # id -> dict(engine, category, technique, text, note, design_ref)
 CHECKS = {
+ "C12": dict(engine="h_filt", category="model_checking", design="§3 C12",
+   technique="explicit-state BFS over reload/emission histories on two real threads + preemption-bounded exhaustive schedule exploration of reload || emit || emit under the cooperative scheduler (fresh process per schedule)",
+   text="For each way of using a reload handle (a global filter layer, a per-layer filter, a Filtered layer inside reload::Subscriber changed through modify) and each initial value, every history up to the stated depth of {reload to another value of any kind, events and span open/close on two threads, dropping the collector} is executed; after reload returns every emission (cached always / cached never / first hit) must be judged by the new value and a handle of a dropped collector must report is_dropped. Races reload || cached-callsite emission || first-hit emission / span lifecycle are explored over every interleaving up to the preemption bound: an overlapping emission is judged entirely by the old or entirely by the new value, later ones by the new value, no deadlock.",
+   note="SC at hook granularity (reload lock incl. a point while it is write-held, the unlock->rebuild gap, callsite registry lock, interest and MAX_LEVEL accesses). Known finding F17 (a Filtered layer inside reload is not recognised as per-layer-filtered, its hint becomes global) is attributed by a defect variant of the model."),
  "C08": dict(engine="h_filt", category="exploration", design="§3 C08",
    technique="exhaustive enumeration of filter expressions and stack shapes x a static metadata universe x span contexts through the Collect API, checking the summary/decision implication table and (for stacks) the cached-shortcut path against the full path",
    text="Every filter expression up to the stated depth over level thresholds, target tables (incl. duplicate/conflicting entries), static, span-scoped and value-matching EnvFilters, closure filters with and without true hints, Option, reload, and/or/not, and every stack shape (C07's generator plus global filters inside Vec/Option/trees) is evaluated on 26 static metadata x 4 span contexts: callsite_enabled/register_callsite = never implies enabled() false everywhere, always implies true everywhere, a max-level hint h implies nothing above h is enabled; for stacks, delivery with the cached shortcut (no enabled() call) must equal delivery on the full path.",
